@@ -1,5 +1,4 @@
 import Slock.Proofs.Engine2Drain
-import Slock.Proofs.EngineWake
 /-! Simulation stage 2 → stage 1, foundations: `abs` is key-local (`(abs s).getKey n = Key.abs (s.getKey n)`), and storing a key
 record commutes with `abs` up to the order of the key table. -/
 namespace Slock.Sim
@@ -120,10 +119,17 @@ theorem getKey_setKey_other (a : Engine.DB) (k : Engine.Key) (n : Nat) (hne : n 
       simp [List.find?, this]
 
 theorem getKey_setKey_same (a : Engine.DB) (k : Engine.Key) : (a.setKey k).getKey k.key = k := by
-  rw [Engine.getKey_setKey]
+  unfold Engine.DB.setKey Engine.DB.getKey
+  simp only []
+  have hnf : ∀ l : List Engine.Key, (l.filter (fun x => x.key != k.key)).find? (fun x => x.key == k.key) = none := by
+    intro l
+    apply List.find?_eq_none.mpr
+    intro x hx
+    have := (List.mem_filter.mp hx).2
+    simpa using this
   split
-  · rename_i h; exact (isEmpty_eq k h).symm
-  · rfl
+  · rename_i h; rw [hnf]; exact (isEmpty_eq k h).symm
+  · rw [List.find?_append, hnf]; simp
 
 theorem getKey_key1 (a : Engine.DB) (n : Nat) : (a.getKey n).key = n := by
   unfold Engine.DB.getKey
